@@ -93,6 +93,9 @@ func c05Configs(thorough bool) []modelCfg {
 						for _, b := range bs {
 							for _, rules := range variants {
 								cfg := modelCfg{Prop: "C05", Rules: rules, Model: m.name, B: b, N: nm[0], M: nm[1]}
+								if n >= 5 {
+									cfg.Sched = 2 // five rules: preemption bound 2 also in the thorough tier (bound 3 does not finish)
+								}
 								if m.sel {
 									k := n
 									if m.nm {
@@ -150,11 +153,11 @@ func init() {
 	hx.Register(&hx.Prop{
 		ID:          "C05",
 		Workers:     func(string) int { return 16 },
-		BudgetQuick: 150 * time.Second,
+		BudgetQuick: 300 * time.Second,
 		BudgetThor:  25 * time.Minute,
 		Kind:        "schedules",
 		Rule: "models {mix, inverse-mix, N-sort-M-conc, N-conc-M-sort, N-conc-M-conc and their selected twins} x 1..4(5) rules x salience patterns {descending, ascending incl. negative, tied pairs, (all tied)} x failing subsets of size <=1(2) (for 3 rules also failing by a real fault - an ill-typed store into an injected field, a failing top-level return expression - instead of the panicking observer) x (N,M) in {1,2}^2 x both policy values; " +
-			"every schedule up to the preemption bound (quick 2, thorough 3) on the real engine; oracle = staged reference plan (barrier, exactly-once, sorted order, stop policy, error iff failure), any order among equal saliences accepted",
+			"every schedule up to the preemption bound (quick 2, thorough 3; five rules: 2) on the real engine; oracle = staged reference plan (barrier, exactly-once, sorted order, stop policy, error iff failure), any order among equal saliences accepted",
 		Assume: []string{"injected observer functions terminate", "sequentially consistent memory (races are C19's subject)"},
 		Run: func(c *hx.Ctx) {
 			b := 2
@@ -186,6 +189,9 @@ func exploreShared(c *hx.Ctx, prop string, i int, sc func() *hx.Scenario, ec hx.
 func delayBound(c *hx.Ctx, b int) int {
 	if b == 0 {
 		return 0
+	}
+	if b >= 3 {
+		return b // a configuration that asks for a deeper bound explicitly
 	}
 	if c.Thorough() {
 		return 3
